@@ -203,6 +203,29 @@ model_event_print(struct model *model, struct emu_ev *ev,
 		return -1;
 	}
 
+	/* The arguments are read at their declared offsets: ensure the
+	 * event really carries them */
+	if (ev->payload_size < es->payload_size) {
+		err("event %s has %zd bytes of payload, expecting %zd",
+				ev->mcv, ev->payload_size, es->payload_size);
+		return -1;
+	}
+
+	/* String arguments are printed up to the nil, which must be inside
+	 * the payload */
+	for (int i = 0; i < es->nargs; i++) {
+		struct ev_arg *arg = &es->args[i];
+		if (arg->type != STR)
+			continue;
+
+		const char *str = (const char *) ev->payload + arg->offset;
+		if (memchr(str, '\0', ev->payload_size - arg->offset) == NULL) {
+			err("event %s has unterminated string argument %s",
+					ev->mcv, arg->name);
+			return -1;
+		}
+	}
+
 	if (ev_spec_print(es, ev, buf, buflen) < 0) {
 		err("cannot print event signature for %s", ev->mcv);
 		return -1;
